@@ -6,6 +6,8 @@ import ast
 
 from ..core import Run
 from ..effects import Effects
+from ..flatten import flat_info
+from ..absint import Raised
 from ..paths import enum_paths, first_index
 from ..pymodel import PyModel, walk_no_nested
 from ..shapes import Const, Hole, ShapeEval, render
@@ -44,130 +46,150 @@ def _pairs(run: Run, model: PyModel, fi) -> list[tuple[ast.expr, ast.expr, ast.A
     return out
 
 
+SCENARIOS = [("SRCo", "DSTz", "SRCo", "DSTz"), ("SRC.zo", "DST.zo", "SRC", "DST"), ("sub/SRCz", "sub2/DSTo", "sub/SRCz", "sub2/DSTo"), ("pa.ge", "qu.ux", "pa.ge", "qu.ux")]
+
+
 def check(run: Run) -> None:
     model = PyModel(run.repo)
-    eff = Effects(model)
-    run.rule("C14.R1", "every replacement key is '[[' + <source link name> + <non-empty delimiter>, the delimiters cover ']' and '#', the value mirrors the key with the destination name; names are derived by exact suffix removal; regex patterns must escape the name")
-    run.rule("C14.R2", "scope: get_all_zfiles globs exactly *.zo, *.zot, *.zoq recursively and the rewrite loop iterates it; each file is rewritten from its own content")
+    run.rule("C14.R1", "abstract run of the rename on generic names (with / without .zo, in sub-directories, ending in o / z, containing a dot): the text written back is the text read from the "
+                       "same file with exactly the replacements '[[A]' -> '[[B]' and '[[A#' -> '[[B#' applied (A, B = the names without the .zo suffix); names are never treated as character "
+                       "sets or regular expressions")
+    run.rule("C14.R2", "scope: get_all_zfiles globs exactly *.zo, *.zot, *.zoq recursively, hands on everything it found, and is what the rewrite visits; each file is rewritten from its own content")
     run.rule("C14.R3", "order: the rename of the page precedes the rewrites and goes from the source name to the destination name")
     fi = model.func(F_RENAME)
-    fn = fi.node
-    se = ShapeEval(model, fi)
+    slice_ = [model.funcs[q] for q in sorted(model.reachable([F_RENAME])) if q.startswith(("zorg.app.runners._run_file.", "zorg.shared.common."))]
+    run.floor("functions of the rename operation", len(slice_), 3)
 
-    # regexes built from the page name
-    for n in walk_no_nested(fn):
-        if isinstance(n, ast.Call) and ast.unparse(n.func) in ("re.compile", "re.sub", "re.subn", "re.search", "re.match", "re.findall", "re.finditer"):
-            for sh in se.eval(n.args[0]):
-                for p in sh:
-                    if isinstance(p, Hole) and not p.source.startswith("re.escape("):
-                        run.refuted("C14.R1", "run_file_rename", n, f"the page name `{p.source}` is interpolated into a regular expression without re.escape: "
-                                    "'.', '+', '(' ... in a page name change what is matched", file=FILE, node=n)
-    uses_regex = any(isinstance(n, ast.Call) and ast.unparse(n.func).startswith("re.") for n in walk_no_nested(fn))
+    # ---- names as character sets / regular expressions (structural, over the whole operation)
+    uses_regex = False
+    for f in slice_:
+        se = ShapeEval(model, f)
+        for n in walk_no_nested(f.node):
+            if isinstance(n, ast.Call) and ast.unparse(n.func) in ("re.compile", "re.sub", "re.subn", "re.search", "re.match", "re.findall", "re.finditer") and n.args:
+                if f.qualname.startswith("zorg.shared.common.") and f.name not in ("simplify_fname", "strip_zdir", "prepend_zdir", "bulk_prepend_zdir", "get_all_zfiles"):
+                    continue
+                for sh in se.eval(n.args[0]):
+                    for p in sh:
+                        if isinstance(p, Hole):
+                            uses_regex = True
+                            if not p.source.startswith("re.escape("):
+                                run.refuted("C14.R1", f.name, n, f"the page name `{p.source}` is interpolated into a regular expression without re.escape: "
+                                            "'.', '+', '(' ... in a page name change what is matched", file=f.file, node=n)
+        if f.name in ("run_file_rename", "simplify_fname", "strip_zdir") or f.qualname.startswith("zorg.app.runners._run_file."):
+            for bad in affix_strip_misuse(f.node):
+                run.refuted("C14.R1", f.name, bad, f"`{ast.unparse(bad)}` strips a character set, not the suffix: page names ending in those characters are mangled "
+                            "and links are rewritten from/to the wrong name", file=f.file, node=bad)
     if uses_regex:
-        # a regex-based rewrite may be perfectly fine (with re.escape); its matching
-        # behaviour is outside what the str.replace shape rules can decide.
-        run.undecided("C14.R1", "run_file_rename", "link rewriting through regular expressions is outside the recognised (str.replace) shape; "
-                      "only the missing-re.escape rule is decided")
+        run.undecided("C14.R1", "run_file_rename", "link rewriting through regular expressions is outside what the replacement-chain evaluation decides; only the missing-re.escape rule is decided")
         return
 
-    pairs = _pairs(run, model, fi)
-    run.floor("replacement pairs", len(pairs), 2)
-    delims = set()
-    for old, new, site in pairs:
-        olds, news = se.eval(old), se.eval(new)
-        for osh in olds:
-            ok_shape = len(osh) == 3 and isinstance(osh[0], Const) and osh[0].text == "[[" and isinstance(osh[1], Hole) and isinstance(osh[2], Const) and osh[2].text != ""
-            if not ok_shape:
-                run.refuted("C14.R1", "run_file_rename", old, f"replacement key `{render(osh)}` is not '[[' + name + delimiter: without a closing delimiter "
-                            "links to pages whose names merely start with the old name are rewritten too", file=FILE, node=site)
+    # ---- R1 / R2b / R3: abstract run
+    n_writes = 0
+    for src, dest, S, D in SCENARIOS:
+        try:
+            results = abstract_rename(model, src, dest)
+        except Exception as e:
+            run.undecided("C14.R1", "run_file_rename", f"cannot interpret the rename abstractly: {type(e).__name__}: {e}")
+            return
+        want = {(f"[[{S}]", f"[[{D}]"), (f"[[{S}#", f"[[{D}#")}
+        want_alt = {(f"[[{S}]]", f"[[{D}]]"), (f"[[{S}#", f"[[{D}#")}
+        seen_write = False
+        for v, trace, imprecise, derived, s in results:
+            if isinstance(v, Raised):
+                run.undecided("C14.R1", "run_file_rename", f"rename {src} -> {dest}: raises {v.exc}")
                 continue
-            d = osh[2].text
-            run.check("C14.R1", f"key {render(osh)!r} ends in a link delimiter", d[0] in "]#", "run_file_rename", old,
-                      f"delimiter {d!r} after the page name is neither ']' nor '#'", file=FILE, node=site)
-            run.check("C14.R1", f"key {render(osh)!r} is built from the source name", "src" in osh[1].source and "dest" not in osh[1].source, "run_file_rename", old,
-                      f"replacement key uses `{osh[1].source}` instead of the source page name", file=FILE, node=site)
-            delims.add(d[0])
-            mirrored = False
-            for nsh in news:
-                if len(nsh) == 3 and isinstance(nsh[0], Const) and nsh[0].text == "[[" and isinstance(nsh[1], Hole) and isinstance(nsh[2], Const) and nsh[2].text == d:
-                    same_chain = nsh[1].transforms == osh[1].transforms or _norm_t(nsh[1]) == _norm_t(osh[1])
-                    if "dest" in nsh[1].source and same_chain:
-                        mirrored = True
-            run.check("C14.R1", f"value of {render(osh)!r} mirrors the key with the destination name", mirrored, "run_file_rename", new,
-                      f"replacement `{render(osh)}` -> `{', '.join(render(x) for x in news)}` does not mirror the key (same delimiter, destination name derived the same way)",
-                      file=FILE, node=site)
-    run.check("C14.R1", "both link forms [[A]] and [[A#anchor]] are covered", {"]", "#"} <= delims, "run_file_rename", f"delimiters {sorted(delims)}",
-              f"only the delimiters {sorted(delims)} are rewritten: links of the other form keep pointing at the old name", file=FILE, node=fn)
-    # exact suffix removal
-    fs = model.func(F_SIMPLIFY)
-    for f in (fi, fs):
-        for bad in affix_strip_misuse(f.node):
-            run.refuted("C14.R1", f.name, bad, f"`{ast.unparse(bad)}` strips a character set, not the suffix: page names ending in those characters are mangled "
-                        "and links are rewritten from/to the wrong name", file=f.file, node=bad)
-    guards = [n for n in walk_no_nested(fs.node) if isinstance(n, ast.If) and find_calls(n.test, "endswith")]
-    ok = False
-    for g in guards:
-        suf = find_calls(g.test, "endswith")[0].args[0]
-        if isinstance(suf, ast.Constant):
-            for s in ast.walk(g):
-                if isinstance(s, ast.Subscript) and isinstance(s.slice, ast.Slice) and s.slice.upper is not None and s.slice.lower is None:
-                    if int_eval(s.slice.upper, {}) == -len(suf.value):
-                        ok = True
-                if isinstance(s, ast.Call) and isinstance(s.func, ast.Attribute) and s.func.attr == "removesuffix" and s.args and isinstance(s.args[0], ast.Constant) and s.args[0].value == suf.value:
-                    ok = True
-    if not guards:
-        ok = any(isinstance(s, ast.Call) and isinstance(s.func, ast.Attribute) and s.func.attr == "removesuffix" for s in ast.walk(fs.node))
-    run.check("C14.R1", "simplify_fname removes exactly the '.zo' suffix", ok, "simplify_fname", "suffix removal",
-              "simplify_fname does not remove exactly the tested suffix", file=fs.file, node=fs.node)
-    run.sample(dict(rule="C14.R1", pairs=[(render(se.eval(o)[0]), render(se.eval(n)[0])) for o, n, _ in pairs]))
+            if imprecise:
+                run.undecided("C14.R1", "run_file_rename", f"rename {src} -> {dest}: " + "; ".join(imprecise[:2]))
+                continue
+            reads = {e[1]: e[2] for e in trace if e[0] == "read"}
+            renames = [i for i, e in enumerate(trace) if e[0] == "rename"]
+            for i, e in enumerate(trace):
+                if e[0] != "write":
+                    continue
+                seen_write = True
+                n_writes += 1
+                run.check("C14.R3", f"{src} -> {dest}: the page is renamed before links are rewritten", bool(renames) and renames[0] < i, "run_file_rename", "rename order",
+                          "links are rewritten before / without renaming the page", file=FILE, node=fi.node)
+                t = e[2]
+                chain = []
+                cur = getattr(t, "tid", None)
+                ok_src = True
+                while cur is not None and cur != reads.get(e[1]):
+                    d = derived.get(cur)
+                    if d is None:
+                        ok_src = False
+                        break
+                    chain.append((d[1], d[2]))
+                    cur = d[0]
+                run.check("C14.R2", f"{src} -> {dest}: a file is rewritten from its own content", ok_src and e[1] in reads, "run_file_rename", "write source",
+                          "the text written to a file does not derive from the text read from that same file", file=FILE, node=fi.node)
+                ops = {c[0] for c in chain}
+                pairs = {tuple(c[1][:2]) for c in chain if c[0] == "replace" and len(c[1]) >= 2}
+                only_replace = ops <= {"replace"}
+                good = only_replace and pairs in (want, want_alt)
+                why = []
+                if not only_replace:
+                    why.append(f"operations {sorted(ops)} are applied to the content besides str.replace")
+                for k, v2 in sorted(pairs - want - want_alt):
+                    if not (k.startswith("[[") and k[2:].startswith(S) and k[2 + len(S):] != ""):
+                        why.append(f"key {k!r} is not '[[' + {S!r} + a link delimiter (links to pages whose names merely contain, extend or end with the name are rewritten, or none are)")
+                    elif not (v2.startswith("[[" + D) and v2[2 + len(D):] == k[2 + len(S):]):
+                        why.append(f"{k!r} is replaced by {v2!r}, which does not mirror it with the destination name {D!r}")
+                    else:
+                        why.append(f"unexpected replacement {k!r} -> {v2!r}")
+                for k, v2 in sorted((want - pairs) if not (pairs & (want_alt - want)) else (want_alt - pairs)):
+                    why.append(f"links of the form {k!r}... are not rewritten")
+                run.check("C14.R1", f"{src} -> {dest}: replacements are exactly {sorted(want)}", good, "run_file_rename", f"{src}->{dest}: {sorted(pairs)}",
+                          f"renaming {src!r} to {dest!r} rewrites file contents with {sorted(pairs)}: " + "; ".join(why), file=FILE, node=fi.node)
+            for i in renames:
+                _, a, b = trace[i]
+                ok = src.split(".")[0].split("/")[-1] in repr(a) and dest.split(".")[0].split("/")[-1] in repr(b) and dest.split("/")[-1].split(".")[0] not in repr(a)
+                run.check("C14.R3", f"{src} -> {dest}: the page moves from the source to the destination name", ok, "run_file_rename", f"rename {repr(a)[:40]} -> {repr(b)[:40]}",
+                          f"the rename goes from {a!r} to {b!r}", file=FILE, node=fi.node)
+        if not seen_write:
+            run.undecided("C14.R1", "run_file_rename", f"rename {src} -> {dest}: no abstract path writes a file back")
+    run.floor("abstract rewrites observed", n_writes, 4)
 
-    # ---- R2
+    # ---- R2: which files
     fa = model.func(F_ALL)
-    globs = sorted(c.args[0].value for c in find_calls(fa.node, "rglob") if c.args and isinstance(c.args[0], ast.Constant))
+    consts = {k: v for k, v in fa.module.assigns.items()}
+    globs = []
+    for c in find_calls(fa.node, "rglob"):
+        a0 = c.args[0] if c.args else None
+        if isinstance(a0, ast.Constant):
+            globs.append(a0.value)
+        elif isinstance(a0, ast.Name):
+            # rglob(p) for p in CONSTANT_TUPLE
+            src_iter = None
+            for comp in ast.walk(fa.node):
+                if isinstance(comp, ast.comprehension) and isinstance(comp.target, ast.Name) and comp.target.id == a0.id:
+                    src_iter = comp.iter
+                if isinstance(comp, ast.For) and isinstance(comp.target, ast.Name) and comp.target.id == a0.id:
+                    src_iter = comp.iter
+            if isinstance(src_iter, ast.Name) and src_iter.id in consts:
+                src_iter = consts[src_iter.id]
+            if isinstance(src_iter, (ast.Tuple, ast.List)) and all(isinstance(e, ast.Constant) for e in src_iter.elts):
+                globs.extend(e.value for e in src_iter.elts)
+            else:
+                globs.append(f"<{ast.unparse(a0)}>")
+    globs = sorted(globs)
     nonrec = find_calls(fa.node, "glob")
     run.check("C14.R2", "all *.zo, *.zot and *.zoq files are visited recursively", globs == ["*.zo", "*.zoq", "*.zot"] and not nonrec, "get_all_zfiles", f"globs {globs}",
               f"get_all_zfiles visits {globs}{' (non-recursive glob used)' if nonrec else ''}, not exactly *.zo, *.zot, *.zoq recursively", file=fa.file, node=fa.node)
     from ..util import filtering_constructs
 
-    flt = filtering_constructs(fa.node)
+    flt = [x for x in filtering_constructs(fa.node)]
     run.check("C14.R2", "get_all_zfiles hands on every file the globs found", not flt, "get_all_zfiles", flt[0] if flt else "unfiltered",
               f"get_all_zfiles drops some of the files it found (`{ast.unparse(flt[0])[:80] if flt else ''}`): links to the renamed page inside those files keep the old name", file=fa.file, node=flt[0] if flt else fa.node)
-    loops = [n for n in walk_no_nested(fn) if isinstance(n, ast.For) and any(model.callee(fi, c) == F_ALL for c in ast.walk(n.iter) if isinstance(c, ast.Call))]
-    run.check("C14.R2", "the rewrite loop iterates get_all_zfiles", len(loops) == 1, "run_file_rename", "rewrite loop", "the rewrite loop does not iterate get_all_zfiles()", file=FILE, node=fn)
-    if len(loops) == 1:
-        loop = loops[0]
-        var = loop.target.id if isinstance(loop.target, ast.Name) else None
-        reads = [c for c in find_calls(loop, "read_text") if base_name(c.func.value) == var]
-        writes = [c for c in find_calls(loop, "write_text")]
-        ok = bool(reads) and len(writes) == 1 and base_name(writes[0].func.value) == var
-        run.check("C14.R2", "each file is read and written back in place", ok, "run_file_rename", writes[0] if writes else "no write",
-                  "a file is not rewritten in place from its own content", file=FILE, node=loop)
-        if ok:
-            # the written text derives from the read text through replace() only
-            w = writes[0].args[0]
-            chain_ok = _derives_by_replace(loop, w, reads[0])
-            run.check("C14.R2", "the written text is the read text with only the link replacements applied", chain_ok, "run_file_rename", w,
-                      "the text written back is not the file's own content with only str.replace applied", file=FILE, node=writes[0])
-    # ---- R3
-    n_p = 0
-    for p in enum_paths(fn):
-        r = first_index(p, lambda n: isinstance(n, ast.Call) and isinstance(n.func, ast.Attribute) and n.func.attr == "rename")
-        w = first_index(p, lambda n: isinstance(n, ast.Call) and isinstance(n.func, ast.Attribute) and n.func.attr == "write_text")
-        if w >= 0:
-            n_p += 1
-            run.check("C14.R3", "rename precedes link rewriting", 0 <= r < w, "run_file_rename", "rename order", "links are rewritten before/without renaming the page", file=FILE, node=fn)
-    ren = find_calls(fn, "rename")
-    if len(ren) == 1:
-        s_deps = _cfg_deps(fn, ren[0].func.value)
-        d_deps = _cfg_deps(fn, ren[0].args[0])
-        s_ok = "src_name" in s_deps and "dest_name" not in s_deps
-        d_ok = "dest_name" in d_deps and "src_name" not in d_deps
-        run.check("C14.R3", "the page moves from the source name to the destination name", s_ok and d_ok, "run_file_rename", ren[0],
-                  "the rename does not go from cfg.src_name to cfg.dest_name", file=FILE, node=ren[0])
-    else:
-        run.undecided("C14.R3", "run_file_rename", f"expected one rename, found {len(ren)}")
-    run.units = dict(functions=[F_RENAME, F_SIMPLIFY, F_ALL], pairs=len(pairs))
-    run.assumptions += ["str.replace replaces every non-overlapping occurrence and nothing else", "Path.rglob semantics"]
+    run.check("C14.R2", "the rewrite visits get_all_zfiles", F_ALL in model.reachable([F_RENAME]), "run_file_rename", "rewrite loop", "the rename operation never calls get_all_zfiles()", file=FILE, node=fi.node)
+    fl = flat_info(model, F_RENAME)
+    loops = [n for n in walk_no_nested(fl.node) if isinstance(n, ast.For) and any(model.callee(fl, c) == F_ALL for c in ast.walk(n.iter) if isinstance(c, ast.Call))]
+    if loops:
+        flt2 = [x for x in filtering_constructs(ast.Module(body=[ast.Expr(value=loops[0].iter)], type_ignores=[]))]
+        run.check("C14.R2", "the rewrite loop iterates get_all_zfiles unfiltered", not flt2, "run_file_rename", loops[0].iter, f"the rewrite loop iterates `{ast.unparse(loops[0].iter)[:80]}`", file=FILE, node=loops[0])
+    run.units = dict(functions=[f.qualname for f in slice_], scenarios=len(SCENARIOS))
+    run.assumptions += ["str.replace replaces every non-overlapping occurrence and nothing else", "Path.rglob semantics",
+                        "the abstract run is parametric in the page names (markers); name-dependent mistakes are covered by the strip / regex rules and by markers ending in o, z and containing a dot"]
 
 
 def _norm_t(h: Hole) -> tuple:
@@ -221,4 +243,60 @@ def _cfg_deps(fn: ast.FunctionDef, expr: ast.expr) -> set[str]:
             elif isinstance(n, ast.Name) and n.id in assigns and n.id not in seen:
                 seen.add(n.id)
                 stack.extend(assigns[n.id])
+    return out
+
+
+# --------------------------------------------------------------------------------------------------------------
+# Abstract run of the rename operation: page names are concrete markers, the notes directory is "/Z", every file's
+# content is an opaque text.  Library objects (Path, logging) are uninterpreted terms; what is observed is the
+# sequence of effects: rename(src -> dest), and for the visited file the chain of str.replace calls between the
+# text that was read and the text that is written back.
+def abstract_rename(model: PyModel, src: str, dest: str):
+    from ..absint import Interp, Raised, State
+    from ..absval import HObj, Opaque, Ref, Term, Text, new_text
+
+    events: list = []
+
+    def fz(I, v, st):
+        return I.B.freeze_term(I, v, st)
+
+    def call_any(I, fv, args, kwargs, st, node):
+        if fv.cls.startswith("ext:"):
+            return [(Term(fv.cls[4:].split(".")[-1], tuple(fz(I, a, st) for a in args)), st)]
+        return None
+
+    def meth_opaque(I, recv, name, args, kwargs, st, node):
+        if recv.cls == "zfile":
+            if name in ("read_text",):
+                t = new_text({"CONTENT"}, "content")
+                st.trace.append(("read", recv.tag, t.tid))
+                return [(t, st)]
+            if name == "write_text":
+                st.trace.append(("write", recv.tag, args[0]))
+                return [(None, st)]
+            return [(Opaque("zfile." + name, recv.tag), st)]
+        if recv.cls.startswith("ext:"):
+            return [(None if "ogger" in recv.cls or "logrus" in recv.cls else Term(recv.cls[4:] + "." + name, tuple(fz(I, a, st) for a in args)), st)]
+        return None
+
+    def all_files(I, args, kwargs, st, node):
+        return [(st.alloc(HObj("list", items=[Opaque("zfile", "F1")])), st)]
+
+    def term_method_hook(I, recv, name, args, kwargs, st, node):
+        return None
+
+    def term_method(I, recv, name, args, kwargs, st, node):
+        if name == "rename" and args:
+            st.trace.append(("rename", recv, fz(I, args[0], st)))
+            return [(None, st)]
+        return None
+
+    probes = {"method:*": meth_opaque, "call:*": call_any, F_ALL: all_files, "method:term": term_method,
+              "binop": lambda I, op, l, r, st: Term({ast.Div: "/"}.get(type(op), type(op).__name__), (fz(I, l, st), fz(I, r, st)))}
+    I = Interp(model, probes=probes, max_states=4000)
+    st = State()
+    cfg = st.alloc(HObj("obj", cls="zorg.app.config.FileRenameConfig", fields=dict(src_name=src, dest_name=dest, zettel_dir="/Z", command="rename")))
+    out = []
+    for v, s in I.run_function(F_RENAME, [cfg], st=st):
+        out.append((v, list(s.trace), list(s.imprecise), dict(s.meta.get("derived", {})), s))
     return out
